@@ -204,7 +204,13 @@ def run_case(case):
                     if rec["meta"]["step"] != kind:
                         viol.append(violation("audit-step-name-wrong", dict(ctx, audit=rec["meta"]["step"])))
                     same_variant_paths = byvid.get((kind, e[key]["vid"]), [path])
-                    if rec["meta"]["package"] not in same_variant_paths:
+                    if rec["meta"]["package"] not in same_variant_paths and os.path.realpath(ws) not in executed:
+                        # a step that was not re-executed keeps the trail of its build time: the path it was built under may have become
+                        # another variant since (e.g. the environment of that dependency edge changed) while this variant lives on elsewhere
+                        counters["package_path_of_unexecuted_step_not_current"] = counters.get("package_path_of_unexecuted_step_not_current", 0) + 1
+                        if rec["meta"]["recipe"] != e["recipe"]:
+                            viol.append(violation("audit-recipe-name-wrong", dict(ctx, audit=rec["meta"]["recipe"], api=e["recipe"])))
+                    elif rec["meta"]["package"] not in same_variant_paths:
                         viol.append(violation("audit-package-path-is-not-a-path-of-this-variant", dict(ctx, audit=rec["meta"]["package"], candidates=same_variant_paths[:4])))
                     else:
                         te = truth[rec["meta"]["package"]]
